@@ -56,7 +56,8 @@ Inductive event :=
 | EInv (t : N) (c : call) | ERet (t : N) (c : call) (r : result)
 | ECb (x : ctx) (c : cb State aid)
 (* internal (ghost) events *)
-| EEnq (a : aid) | EEnqExit | EDeq (i : item aid) | EDisc | EDrop (a : aid) | ESubDrop (sid : N)
+| EEnq (a : aid) | EEnqExit | EDeq (i : item aid) | EDisc | EDrop (a : aid) | EReject (a : aid)
+| ESubDrop (sid : N)
 | EWrite (a : aid) (s : State) | ESnapshot (a : aid) (l : list N)
 | ESpawn (k : N) (t : N) | ESpawnSkipped (k : N) | ETakePool | EPanic (t : N).
 
@@ -272,8 +273,10 @@ Definition dispatch_result (e : entry) (ok : bool) : result :=
   end.
 
 (* bookkeeping of one phase of a dispatch-queue send of item x *)
+(* EDrop: an action evicted from the queue (DropOldest); EReject: an action that never entered it
+   (DropLatest); both count in the dropped-actions metric *)
 Definition dq_events (x : item aid) (sr : sresult) (dropped : list aid) : list event :=
-  map EDrop dropped ++
+  map (match sr with SDone false => EReject | _ => EDrop end) dropped ++
   match sr, x with
   | SDone true, IAct a => [EEnq a]
   | SDone true, IExit => [EEnqExit]
